@@ -125,6 +125,16 @@ def cmd_check(prop, tier, seed, args):
         path = core.write_replay(prop, seed, v["idx"], shrunk, r["violation"], len(case["ops"]), tier)
         ok, out = core.verify_replay_fresh(prop, path)
         if not ok:
+            # depends on state carried across runs inside the worker process: replay the worker's whole sequence
+            try:
+                os.unlink(path)
+            except OSError:
+                pass
+            path = core.write_sequence_replay(prop, seed, tier, v)
+            ok, out = core.verify_replay_fresh(prop, path)
+            r = {"violation": vrec}
+            shrunk = case
+        if not ok:
             print("HARNESS-ERROR: replay %s does not reproduce in a fresh interpreter:\n%s" % (path, out))
             write_evidence(prop, tier, seed, pm.LEVEL, total, time.time() - t0, extra, nviol)
             return 2
@@ -157,6 +167,15 @@ def cmd_replay(prop, path, args):
     seams.install()
     with open(path) as f:
         peek = json.load(f)
+    if peek.get("mode") == "sequence":
+        res = core.replay_sequence(peek)
+        got = res["violation"] if res else None
+        if got is not None and core.same_violation(got, peek["violation"]):
+            print("violation: %s" % json.dumps(got, sort_keys=True))
+            print("VIOLATION property=%s replay=%s" % (got["property"], path))
+            return 1
+        print("replay %s (sequence of %d cases): no violation" % (path, len(peek["cases"])))
+        return 0
     if peek.get("mode") == "hashseed":
         pm = core._prop_module(prop)
         v = pm.replay_hashseed(peek)
